@@ -10,6 +10,7 @@ import (
 	"encoding/hex"
 	"encoding/json"
 	"fmt"
+	"io"
 	"os"
 	"path/filepath"
 	"runtime"
@@ -460,3 +461,29 @@ func vfJoin(ss []string) string { return strings.Join(ss, ",") }
 func runtimeStack(buf []byte) int { return runtime.Stack(buf, true) }
 
 func jsonUnmarshal(b []byte, v any) error { return json.Unmarshal(b, v) }
+
+// vfWriteReused writes data through one reused scratch buffer and overwrites the buffer after every Write call: a writer that keeps
+// the caller's slice beyond the call (against the io.Writer contract) then sees different bytes, as it would behind a copy loop.
+func vfWriteReused(w io.Writer, data []byte, scratch *[]byte) error {
+	if cap(*scratch) < len(data) {
+		*scratch = make([]byte, len(data)+len(data)/2+16)
+	}
+	buf := (*scratch)[:len(data)]
+	copy(buf, data)
+	for len(buf) > 0 {
+		n, err := w.Write(buf)
+		if err != nil {
+			return err
+		}
+		if n < 0 || n > len(buf) {
+			return fmt.Errorf("Write returned the impossible count %d for %d bytes", n, len(buf))
+		}
+		rest := len(buf) - n
+		copy((*scratch)[:rest], buf[n:]) // the unwritten rest moves to the front, as a refilling reader would leave it
+		buf = (*scratch)[:rest]
+		for i := rest; i < cap(*scratch) && i < rest+n; i++ {
+			(*scratch)[i] = 0xA5
+		}
+	}
+	return nil
+}
